@@ -14,7 +14,7 @@ theorem cipher_history (key nonce pt : Bytes) (hp : pt.length ≤ maxPlaintext) 
       = ([polyKeyGo key nonce, [], C03.xorStream key nonce 1 pt], none) := by
   simp only [maxPlaintext] at hp
   have hz : (zeros 32).length = 32 := by simp [zeros]
-  rw [C03.history_from_new]
+  rw [C03.history_from_new 1 (by decide)]
   have h1 := C03.specStep_xor_ok (C03.keyWords key) (C03.nonceWords nonce) 0 (zeros 32) (by simp [hz, C03.limit])
   have h2 : C03.specStep (C03.keyWords key) (C03.nonceWords nonce) (0 + (zeros 32).length) (.setCounter 1)
       = .ok (64, []) := by
